@@ -162,7 +162,7 @@ deriving Repr
 /-- `decode name bytes`: the codec as a parameter (error = `UnicodeDecodeError` / `LookupError`) -/
 abbrev Decoder := String → List Nat → Except PyErr Text
 
-def normaliseInput (decode : Decoder) (fallback : String) (inp : SqlInput) (encoding : Option String) : Except PyErr Text :=
+def normaliseInput (decode : Decoder) (primary fallback : String) (inp : SqlInput) (encoding : Option String) : Except PyErr Text :=
   match inp with
   | .stream s => .ok s
   | .str s => .ok s
@@ -171,7 +171,7 @@ def normaliseInput (decode : Decoder) (fallback : String) (inp : SqlInput) (enco
     match encoding.filter (fun e => !e.isEmpty) with
     | some enc => decode enc b
     | none =>
-      match decode "utf-8" b with
+      match decode primary b with
       | .ok s => .ok s
       | .error .unicodeDecodeError => decode fallback b
       | .error e => .error e
